@@ -54,6 +54,19 @@ def buffered_time_extent(spec, g, tb, fb):
     return (b[0], b[2])
 
 
+def _sub_tolerance_zigzag(spec, tb, fb):
+    """Mechanism predicate of the open C06 finding: a line with corners (a part with >= 3 vertices) whose segments are
+    shorter than 1 % of the buffer in buffer units.  GEOS simplifies buffer input at exactly that tolerance, so which
+    vertices survive -- and with mitre joins, which spikes appear -- flips with the last bits of the coordinates."""
+    if spec["type"] not in ("LineString", "MultiLineString") or not (tb > 0 and fb > 0):
+        return False
+    parts = [spec["coordinates"]] if spec["type"] == "LineString" else spec["coordinates"]
+    for part in parts:
+        if len(part) >= 3 and any(math.hypot((b[0] - a[0]) / tb, (b[1] - a[1]) / fb) < 0.01 for a, b in zip(part, part[1:])):
+            return True
+    return False
+
+
 def _iou_1d(a, b):
     inter = max(0, min(a[1], b[1]) - max(a[0], b[0]))
     union = (a[1] - a[0]) + (b[1] - b[0]) - inter
@@ -132,6 +145,13 @@ def _post_affinity(geometry1, geometry2, time_buffer, freq_buffer, result):
             ratio = max(max(b1[2], b2[2]) / tb if tb else 0, max(b1[3], b2[3]) / fb if fb else 0)
             if ratio >= 1e6 and (s1["type"] in geoms.ZERO_ONE_D or s2["type"] in geoms.ZERO_ONE_D):
                 c.dc("shift:coordinate_over_buffer_ratio>=1e6")
+            elif min(b1[0], b2[0]) - tb > 0 and lo > 0 and (_sub_tolerance_zigzag(s1, tb, fb) or _sub_tolerance_zigzag(s2, tb, fb)):
+                # open finding: judged, but keyed by its mechanism (see known_findings.json)
+                dt = [0.5, 3.0, 17.25, 1000.0][hash((s1["type"], s2["type"], round(lo, 3))) % 4]
+                c.mon("affinity.shift")
+                v3 = _orig(geoms.build(geoms.shift_time(s1, dt)), geoms.build(geoms.shift_time(s2, dt)), time_buffer=tb, freq_buffer=fb)
+                if abs(v - v3) > SHIFT_TOL:
+                    c.violate("shift_invariance", "shift_invariance:sub_tolerance_zigzag", observed=[v, v3], expected=f"|dv| <= {SHIFT_TOL}", spec=dict(spec, dt=dt))
             elif min(b1[0], b2[0]) - tb > 0 and lo > 0:
                 dt = [0.5, 3.0, 17.25, 1000.0][hash((s1["type"], s2["type"], round(lo, 3))) % 4]
                 c.mon("affinity.shift")
